@@ -900,6 +900,23 @@ struct Extractor
             ev.push_back(o.done());
             return;
         }
+        if (auto* ne = dyn_cast<CXXNewExpr>(s))
+        {
+            if (ne->getNumPlacementArgs() >= 1)
+            {
+                Path p = pathOf(ne->getPlacementArg(0));
+                JObj o;
+                o.str("e", "write");
+                o.str("kind", "placement-new");
+                o.str("loc", locStr(ne->getBeginLoc()));
+                o.str("lhs", text(ne->getPlacementArg(0), 160));
+                o.raw("path", pathJson(p));
+                o.str("rhs", typeStr(ne->getAllocatedType(), ctx));
+                o.num("id", idOf(s));
+                ev.push_back(o.done());
+            }
+            return;
+        }
         if (auto* le = dyn_cast<LambdaExpr>(s))
         {
             JObj o;
